@@ -48,6 +48,15 @@ def region_events(path):
                 yield from region_events(bp)
 
 
+def regions(path):
+    """The path itself and, recursively, every loop iteration body (as Path objects)."""
+    yield path
+    for e in path.events:
+        if e.kind == "LOOP":
+            for bp in e.a["body"]:
+                yield from regions(bp)
+
+
 def check(ctx):
     a = ctx.a
     ty = types(a)
